@@ -31,6 +31,12 @@ def run(chk, program, tier):
     RR.decide(chk, program, tier, ['RA-DONE'])
     chk.rule('FILTER-HIST', 'the verdict on a message depends on the configuration and on that message only, not on the messages decided before it')
     F.filter_history(chk, program)
+    chk.rule('STATE-DEPS', 'filter verdicts depend on configuration only, never on what was filtered before (C16)')
+    from .. import rules_iso, rules_decoder as D_
+    from .c16 import _Sub
+    rules_iso.state_deps(_Sub(chk, {'STATE-DEPS'}), program)
+    chk.rule('MAP-REPLACE', 'address claims update the source map whether or not they are filtered out (C11 history)'); chk.rule('MAP-ATTACH', 'identity attached = latest claim of the source (C11 history)')
+    D_.map_history(_Sub(chk, {'MAP-REPLACE', 'MAP-ATTACH'}), program)
     res = F.filter_table(chk, program, max_entries=3 if tier == 'thorough' else 2)
     if res is None:
         return
